@@ -6,7 +6,9 @@ from gen import xpathgen as G
 BINDINGS = "p=urn:u1;q=urn:u2"
 # caller configurations: the library also lets the caller bind a DEFAULT namespace (it then qualifies unprefixed ELEMENT name
 # tests and nothing else); every check that varies the configuration draws from these
-BINDING_VARIANTS = [BINDINGS, BINDINGS, "=urn:u1;p=urn:u1;q=urn:u2", "=urn:u2;p=urn:u1;q=urn:u2", "p=urn:u1;q=urn:u2;=urn:u1"]
+# ... and may take a binding out again (`!p`, `!`): what was bound before must leave no trace
+BINDING_VARIANTS = [BINDINGS, BINDINGS, "=urn:u1;p=urn:u1;q=urn:u2", "=urn:u2;p=urn:u1;q=urn:u2", "p=urn:u1;q=urn:u2;=urn:u1",
+                    "=urn:u2;p=urn:u2;!;!p;p=urn:u1;q=urn:u2", "p=urn:u1;q=urn:u2;z=urn:u1;!z"]
 
 
 def strip_impl(field):
